@@ -3286,8 +3286,16 @@ func (ts *TokenStore) handleRevokeOrphan(ctx context.Context, req *logical.Reque
 		return logical.ErrorResponse("batch tokens cannot be revoked"), nil
 	}
 
-	// Revoke and orphan
-	if err := ts.revokeOrphan(ctx, id); err != nil {
+	// Revoke and orphan, in the token's own namespace (the request may have
+	// come in through a child namespace's mount of the token store).
+	tokenNS, err := ts.core.NamespaceByID(ctx, te.NamespaceID)
+	if err != nil {
+		return nil, err
+	}
+	if tokenNS == nil {
+		return nil, namespace.ErrNoNamespace
+	}
+	if err := ts.revokeOrphan(namespace.ContextWithNamespace(ctx, tokenNS), te.ID); err != nil {
 		return logical.ErrorResponse(err.Error()), logical.ErrInvalidRequest
 	}
 
